@@ -84,6 +84,8 @@ var (
 func init() {
 	reg(&explore.Suite{Name: "freelead3", Cfg: sim.Config{Voters: 3}, Seed: seedLeader3,
 		Budget: sim.Budget{Timeouts: 9, Elapses: 9, Beats: 9, Writes: 9, Reads: 9, Reorders: -1, Splits: 9, Cuts: 9, Deviations: -1}})
+	reg(&explore.Suite{Name: "freesnap3", Cfg: sim.Config{Voters: 3, SnapAt: 2}, Seed: seedLeader3,
+		Budget: sim.Budget{Timeouts: 9, Elapses: 9, Beats: 9, Writes: 9, Reads: 9, Reorders: -1, Splits: 9, Cuts: 9, Crashes: 9, Restarts: 9, Deviations: -1}})
 	reg(&explore.Suite{Name: "free3", Cfg: sim.Config{Voters: 3},
 		Budget: sim.Budget{Timeouts: 9, Elapses: 9, Beats: 9, Writes: 9, Reorders: -1, Splits: 9, Deviations: -1}})
 	reg(&explore.Suite{Name: "free3h", Cfg: sim.Config{Voters: 3, StoreHook: true},
